@@ -1,11 +1,13 @@
 import PncProofs.ArrLemmas
 import PncModel.File
+import PncProofs.NamesLemmas
+import PncProofs.C01
 
 /-!
 # C06 — file arithmetic, eval and mask follow masked-array semantics: property theorems
 -/
 namespace Props.C06
-open Arr PFile
+open Arr PFile Props.C01
 
 theorem zipCellsL_getElem? (g : Cell → Cell → Cell) : ∀ (xs ys : List (Arr Cell)) (i : Nat),
     xs.length = ys.length →
@@ -154,6 +156,401 @@ theorem rightData_same (f1 f2 : File) (v w : Var) (h : f1.shapeOf v = f2.shapeOf
 example : bcastOk [2, 3] [1, 3] = true ∧ bcastOk [1, 3] [2, 3] = false ∧
     Arr.get (bcast [2, 3] [1, 3] (.node [.node [.leaf (some 5), .leaf none, .leaf (some 7)]])) [1, 1] = some none ∧
     Arr.get (bcast [2, 3] [1, 3] (.node [.node [.leaf (some 5), .leaf none, .leaf (some 7)]])) [1, 2] = some (some 7) := by
+  decide +kernel
+
+/-! ## `eval`: the new variable is the expression evaluated cell by cell on the file's arrays -/
+
+mutual
+theorem mapCells_get {α} (g : α → α) : ∀ (a : Arr α) (idx : List Nat),
+    Arr.get (mapCells g a) idx = (Arr.get a idx).map g
+  | .leaf x, [] => by simp [mapCells, Arr.get]
+  | .leaf x, _ :: _ => by simp [mapCells, Arr.get]
+  | .node xs, [] => by simp [mapCells, Arr.get]
+  | .node xs, i :: idx => by
+    simp only [mapCells, Arr.get]
+    rw [mapCellsL_getElem? g xs i]
+    cases hx : xs[i]? with
+    | none => simp
+    | some x => simpa using mapCells_get g x idx
+theorem mapCellsL_getElem? {α} (g : α → α) : ∀ (xs : List (Arr α)) (i : Nat),
+    (mapCellsL g xs)[i]? = (xs[i]?).map (mapCells g)
+  | [], i => by simp [mapCellsL]
+  | x :: xs, 0 => by simp [mapCellsL]
+  | x :: xs, i + 1 => by simpa [mapCellsL] using mapCellsL_getElem? g xs i
+end
+
+/-- an index inside the shape of an array names a cell -/
+theorem get_some_of_inShape {α} : ∀ (sh : List Nat) (a : Arr α) (idx : List Nat), hasShape sh a = true → InShape idx sh →
+    ∃ c, Arr.get a idx = some c
+  | [], .leaf x, [], _, _ => ⟨x, rfl⟩
+  | [], .leaf _, _ :: _, _, h => by simp [InShape] at h
+  | [], .node _, _, h, _ => by simp [hasShape] at h
+  | _ :: _, .leaf _, _, h, _ => by simp [hasShape] at h
+  | _ :: _, .node _, [], _, h => by simp [InShape] at h
+  | n :: sh, .node xs, i :: idx, ha, hi => by
+    simp only [hasShape, Bool.and_eq_true, beq_iff_eq] at ha
+    obtain ⟨hlt, hrest⟩ := hi
+    have hx : i < xs.length := by omega
+    simp only [Arr.get, List.getElem?_eq_getElem hx]
+    exact get_some_of_inShape sh xs[i] idx (forall_of_hasShapeL sh xs ha.2 _ (List.getElem_mem hx)) hrest
+
+/-- the specification: the value of an expression at one multi-index, from the cells of the file's variables at that
+index (`none` when a name is not a variable of the file) -/
+def cellSpec (f : File) (idx : List Nat) : Expr → Option Cell
+  | .var n => (f.var? n).bind (fun v => Arr.get v.data idx)
+  | .lit q => some (some q)
+  | .neg a => (cellSpec f idx a).map (fun c => c.map (fun x => -x))
+  | .mlt a q => (cellSpec f idx a).map (fun c => match c with
+      | some x => if x < q then none else some x
+      | none => none)
+  | .minv a => cellSpec f idx a
+  | .bin op a b => match cellSpec f idx a, cellSpec f idx b with
+    | some x, some y => some (op.cell false x y)
+    | _, _ => none
+
+/-- **C06 (eval).** For an expression over variables of one shape, the array `eval` computes has that shape and, at every
+index of the shape, the value obtained by combining the variables' cells at that index: operators act cell by cell with
+masked-array semantics (`op_masked_operand`, `op_add_mul`, `op_div`, `op_div_zero`), a literal is itself everywhere,
+`masked_less` masks the cells below the bound, nothing else is masked or changed. -/
+theorem eval_pointwise (f : File) (sh : List Nat) (s : Arr Cell) (hs : hasShape sh s = true)
+    (e : Expr) (hv : ∀ n ∈ e.vars, ∀ v, f.var? n = some v → hasShape sh v.data = true)
+    (r : Arr Cell) (he : e.eval f s = some r) :
+    hasShape sh r = true ∧ ∀ idx, InShape idx sh → some (Arr.get r idx) = (cellSpec f idx e).map some := by
+  induction e generalizing r with
+  | var n =>
+    simp only [Expr.eval] at he
+    cases hn : f.var? n with
+    | none => rw [hn] at he; cases he
+    | some v =>
+      rw [hn] at he
+      simp only [Option.map_some, Option.some.injEq] at he
+      subst he
+      have hsv := hv n (by simp [Expr.vars]) v hn
+      refine ⟨hsv, fun idx hi => ?_⟩
+      obtain ⟨c, hc⟩ := get_some_of_inShape sh v.data idx hsv hi
+      simp [cellSpec, hn, hc]
+  | lit q =>
+    simp only [Expr.eval, Option.some.injEq] at he
+    subst he
+    refine ⟨mapCells_hasShape _ sh s hs, fun idx hi => ?_⟩
+    obtain ⟨c, hc⟩ := get_some_of_inShape sh s idx hs hi
+    simp [cellSpec, constLike, mapCells_get, hc]
+  | neg a ih =>
+    simp only [Expr.eval] at he
+    cases ha : a.eval f s with
+    | none => rw [ha] at he; cases he
+    | some ra =>
+      rw [ha] at he
+      simp only [Option.map_some, Option.some.injEq] at he
+      subst he
+      obtain ⟨hsa, hga⟩ := ih (fun n hn => hv n (by simpa [Expr.vars] using hn)) ra ha
+      refine ⟨mapCells_hasShape _ sh ra hsa, fun idx hi => ?_⟩
+      have := hga idx hi
+      obtain ⟨c, hc⟩ := get_some_of_inShape sh ra idx hsa hi
+      rw [hc] at this
+      cases hs' : cellSpec f idx a with
+      | none => rw [hs'] at this; cases this
+      | some c' =>
+        rw [hs'] at this
+        simp only [Option.map_some, Option.some.injEq] at this
+        simp [cellSpec, mapCells_get, hc, hs', this]
+  | mlt a q ih =>
+    simp only [Expr.eval] at he
+    cases ha : a.eval f s with
+    | none => rw [ha] at he; cases he
+    | some ra =>
+      rw [ha] at he
+      simp only [Option.map_some, Option.some.injEq] at he
+      subst he
+      obtain ⟨hsa, hga⟩ := ih (fun n hn => hv n (by simpa [Expr.vars] using hn)) ra ha
+      refine ⟨mapCells_hasShape _ sh ra hsa, fun idx hi => ?_⟩
+      have := hga idx hi
+      obtain ⟨c, hc⟩ := get_some_of_inShape sh ra idx hsa hi
+      rw [hc] at this
+      cases hs' : cellSpec f idx a with
+      | none => rw [hs'] at this; cases this
+      | some c' =>
+        rw [hs'] at this
+        simp only [Option.map_some, Option.some.injEq] at this
+        subst this
+        simp only [cellSpec, mapCells_get, hc, hs', Option.map_some]
+        cases c <;> rfl
+  | minv a ih =>
+    simp only [Expr.eval] at he
+    obtain ⟨hsa, hga⟩ := ih (fun n hn => hv n (by simpa [Expr.vars] using hn)) r he
+    exact ⟨hsa, fun idx hi => by simpa [cellSpec] using hga idx hi⟩
+  | bin op a b iha ihb =>
+    simp only [Expr.eval] at he
+    cases ha : a.eval f s with
+    | none => rw [ha] at he; cases he
+    | some ra =>
+      cases hb : b.eval f s with
+      | none => rw [ha, hb] at he; cases he
+      | some rb =>
+        rw [ha, hb] at he
+        simp only [Option.some.injEq] at he
+        subst he
+        obtain ⟨hsa, hga⟩ := iha (fun n hn => hv n (by simp only [Expr.vars, List.mem_append]; exact Or.inl hn)) ra ha
+        obtain ⟨hsb, hgb⟩ := ihb (fun n hn => hv n (by simp only [Expr.vars, List.mem_append]; exact Or.inr hn)) rb hb
+        refine ⟨zipCells_hasShape _ sh ra rb hsa hsb, fun idx hi => ?_⟩
+        rw [zip_get _ sh ra rb idx hsa hsb]
+        have h1 := hga idx hi
+        have h2 := hgb idx hi
+        obtain ⟨c1, hc1⟩ := get_some_of_inShape sh ra idx hsa hi
+        obtain ⟨c2, hc2⟩ := get_some_of_inShape sh rb idx hsb hi
+        rw [hc1] at h1
+        rw [hc2] at h2
+        cases hs1 : cellSpec f idx a with
+        | none => rw [hs1] at h1; cases h1
+        | some d1 =>
+          cases hs2 : cellSpec f idx b with
+          | none => rw [hs2] at h2; cases h2
+          | some d2 =>
+            rw [hs1] at h1
+            rw [hs2] at h2
+            simp only [Option.map_some, Option.some.injEq] at h1 h2
+            simp [cellSpec, hc1, hc2, hs1, hs2, h1, h2]
+
+/-- non-vacuity: `A * 2 - B` on a file with a masked cell in `B` -/
+example :
+    let f : File := ⟨[⟨"x", 2, false⟩], [⟨"A", ["x"], .node [.leaf (some 3), .leaf (some 4)], [], false, false⟩,
+      ⟨"B", ["x"], .node [.leaf none, .leaf (some 1)], [], true, false⟩], []⟩
+    let e : Expr := .bin .sub (.bin .mul (.var "A") (.lit 2)) (.var "B")
+    (e.eval f (.node [.leaf (some 3), .leaf (some 4)])).map (fun r => (Arr.get r [0], Arr.get r [1])) =
+      some (some none, some (some 7)) ∧
+    cellSpec f [1] e = some (some 7) ∧ cellSpec f [0] e = some none := by
+  decide +kernel
+
+/-! ## the expression front ends: what the names of an expression mean -/
+
+/-- **`pncexpr`: a name of one of the file's variables means that variable**, whatever helper functions and physical
+constants carry the same name (`g`, `c`, `h`, `k`, `R`, `e`, `pi`, `hour`, `bar` …); the reserved names are the exception -/
+theorem pncexpr_resolves (f : File) (helpers consts : List String) (hn : NamesNodup f) (n : String) (v : Var)
+    (hv : f.var? n = some v) (hr : n ∉ pncexprReserved) :
+    (pncexprEnv f helpers consts).get n = some (.fileVar v) := by
+  obtain ⟨hmem, hname⟩ := mem_of_var? f n v hv
+  unfold pncexprEnv
+  rw [get_fill_of_some]
+  all_goals rw [get_update_not_mem _ _ _ (by
+    intro p hp
+    simp only [others, List.mem_map] at hp
+    obtain ⟨m, hm, rfl⟩ := hp
+    exact fun h => hr (h ▸ hm))]
+  all_goals rw [get_update_mem (fileBinds f) _ n (.fileVar v) (fileBinds_nodup f hn) (by
+    simp only [fileBinds, List.mem_map]
+    exact ⟨v, hmem, by rw [hname]⟩)]
+  rfl
+
+/-- `pncexpr`: no name means a variable that is not the file's variable of that name -/
+theorem pncexpr_sound (f : File) (helpers consts : List String) (hn : NamesNodup f) :
+    Sound f (pncexprEnv f helpers consts) := by
+  unfold pncexprEnv
+  refine sound_fill f _ _ (sound_update f _ _ (sound_update f _ _ (sound_update f _ _ (sound_update f _ _
+    (sound_update f _ _ (sound_nil f) (fileBinds_sound f hn)) ?_) ?_) (fileBinds_sound f hn)) ?_) ?_
+  all_goals exact fun p hp v hv => others_not_fileVar _ _ p hp v hv f
+
+/-- `eval`: the same, with its reserved names -/
+theorem eval_resolves (f : File) (hn : NamesNodup f) (n : String) (v : Var)
+    (hv : f.var? n = some v) (hr : n ∉ evalReserved) : (evalEnv f).get n = some (.fileVar v) := by
+  obtain ⟨hmem, hname⟩ := mem_of_var? f n v hv
+  unfold evalEnv
+  rw [get_update_not_mem _ _ _ (by
+    intro p hp
+    simp only [others, List.mem_map] at hp
+    obtain ⟨m, hm, rfl⟩ := hp
+    exact fun h => hr (h ▸ hm))]
+  have h1 : (Env.update [] (fileBinds f)).get n = some (.fileVar v) :=
+    get_update_mem (fileBinds f) _ n (.fileVar v) (fileBinds_nodup f hn) (by
+      simp only [fileBinds, List.mem_map]
+      exact ⟨v, hmem, by rw [hname]⟩)
+  rw [get_fill_of_some _ _ _ (by rw [h1]; rfl), h1]
+
+theorem eval_sound (f : File) (hn : NamesNodup f) : Sound f (evalEnv f) := by
+  unfold evalEnv
+  refine sound_update f _ _ (sound_fill f _ _ (sound_update f _ _ (sound_nil f) (fileBinds_sound f hn)) ?_) ?_
+  all_goals exact fun p hp v hv => others_not_fileVar _ _ p hp v hv f
+
+/-- an expression evaluated through a namespace that resolves the file's names to the file's variables (and nothing
+else to a variable) is the expression evaluated on the file's arrays -/
+theorem evalIn_eq_eval (f : File) (env : Env) (s : Arr Cell) (e : Expr) (hs : Sound f env)
+    (hr : ∀ n ∈ e.vars, ∀ v, f.var? n = some v → env.get n = some (.fileVar v)) :
+    e.evalIn env s = e.eval f s := by
+  induction e with
+  | var n =>
+    simp only [Expr.evalIn, Expr.eval]
+    cases hv : f.var? n with
+    | some v => rw [hr n (by simp [Expr.vars]) v hv]; rfl
+    | none =>
+      cases hg : env.get n with
+      | none => rfl
+      | some b =>
+        cases b with
+        | other w => rfl
+        | fileVar w => rw [hs n w hg] at hv; cases hv
+  | lit q => rfl
+  | neg a ih =>
+    simp only [Expr.evalIn, Expr.eval]
+    rw [ih (fun n hn => hr n (by simpa [Expr.vars] using hn))]
+  | mlt a q ih =>
+    simp only [Expr.evalIn, Expr.eval]
+    rw [ih (fun n hn => hr n (by simpa [Expr.vars] using hn))]
+  | minv a ih =>
+    simp only [Expr.evalIn, Expr.eval]
+    rw [ih (fun n hn => hr n (by simpa [Expr.vars] using hn))]
+  | bin op a b iha ihb =>
+    simp only [Expr.evalIn, Expr.eval]
+    rw [iha (fun n hn => hr n (by simp only [Expr.vars, List.mem_append]; exact Or.inl hn)),
+      ihb (fun n hn => hr n (by simp only [Expr.vars, List.mem_append]; exact Or.inr hn))]
+
+/-- **C06 (the expression front ends)**: `pncexpr` evaluates an expression on the file's arrays — the names of the
+expression mean the file's variables, not the helper functions or the physical constants of the same name -/
+theorem pncexpr_eq_eval (f : File) (helpers consts : List String) (s : Arr Cell) (e : Expr) (hn : NamesNodup f)
+    (hr : ∀ n ∈ e.vars, n ∉ pncexprReserved) :
+    e.evalIn (pncexprEnv f helpers consts) s = e.eval f s :=
+  evalIn_eq_eval f _ s e (pncexpr_sound f helpers consts hn)
+    (fun n hm v hv => pncexpr_resolves f helpers consts hn n v hv (hr n hm))
+
+theorem evalns_eq_eval (f : File) (s : Arr Cell) (e : Expr) (hn : NamesNodup f)
+    (hr : ∀ n ∈ e.vars, n ∉ evalReserved) : e.evalIn (evalEnv f) s = e.eval f s :=
+  evalIn_eq_eval f _ s e (eval_sound f hn) (fun n hm v hv => eval_resolves f hn n v hv (hr n hm))
+
+/-- the order matters: with the constants bound after the variables (the order before the repair), `g` of a file that has
+a variable `g` is the constant -/
+theorem constants_last_counterexample :
+    let f : File := ⟨[⟨"x", 1, false⟩], [⟨"g", ["x"], .node [.leaf (some 2)], [], false, false⟩], []⟩
+    (((Env.update [] (fileBinds f)).update (others "const" ["g"])).get "g") = some (.other "const") ∧
+    (pncexprEnv f [] ["g"]).get "g" = some (.fileVar ⟨"g", ["x"], .node [.leaf (some 2)], [], false, false⟩) := by
+  intro f
+  constructor <;> rfl
+
+/-! ## `eval` / `pncexpr` as operations on the file -/
+
+theorem firstVar_mem_vars : ∀ (e : Expr) (n : String), e.firstVar = some n → n ∈ e.vars
+  | .var m, n, h => by simp only [Expr.firstVar, Option.some.injEq] at h; simp [Expr.vars, h]
+  | .lit _, _, h => by simp [Expr.firstVar] at h
+  | .neg a, n, h => firstVar_mem_vars a n h
+  | .mlt a _, n, h => firstVar_mem_vars a n h
+  | .minv a, n, h => firstVar_mem_vars a n h
+  | .bin _ a b, n, h => by
+    simp only [Expr.firstVar] at h
+    simp only [Expr.vars, List.mem_append]
+    cases ha : a.firstVar with
+    | some m => rw [ha] at h; simp only [Option.some.injEq] at h; exact Or.inl (firstVar_mem_vars a n (h ▸ ha))
+    | none => rw [ha] at h; exact Or.inr (firstVar_mem_vars b n h)
+
+theorem find?_replace_last (vs : List Var) (t : String) (nv : Var) (hnv : nv.name = t) :
+    (vs.filter (fun v => v.name != t) ++ [nv]).find? (·.name == t) = some nv := by
+  rw [List.find?_append]
+  have : (vs.filter (fun v => v.name != t)).find? (·.name == t) = none := by
+    rw [List.find?_eq_none]
+    intro x hx
+    have := (List.mem_filter.mp hx).2
+    simpa using this
+  rw [this]
+  simp [List.find?, hnv]
+
+theorem find?_replace_other (vs : List Var) (t n : String) (nv : Var) (hnv : nv.name = t) (hne : n ≠ t) :
+    (vs.filter (fun v => v.name != t) ++ [nv]).find? (·.name == n) = vs.find? (·.name == n) := by
+  rw [List.find?_append, List.find?_filter]
+  have h1 : ([nv].find? (·.name == n)) = none := by
+    have : (nv.name == n) = false := by rw [hnv]; simpa using fun h => hne h.symm
+    simp [List.find?, this]
+  rw [h1, Option.or_none]
+  congr 1
+  funext a
+  by_cases ha : a.name = n
+  · have : a.name ≠ t := fun h => hne (ha ▸ h)
+    simp [ha, hne]
+  · simp [ha]
+
+/-- **C06 (eval, in place).** `eval('t = expr', inplace=True)` and `pncexpr` keep the dimensions, the global attributes
+and every other variable; the variable `t` they create holds the expression evaluated in the namespace. -/
+theorem evalInto_spec (env : Env) (f g : File) (t : String) (e : Expr) (h : evalInto env f t e = .ok g) :
+    g.dims = f.dims ∧ g.attrs = f.attrs ∧ (∀ n, n ≠ t → g.var? n = f.var? n) ∧
+    ∃ tv dat, e.firstVar.bind (boundVar env) = some tv ∧ e.evalIn env tv.data = some dat ∧
+      g.var? t = some { tv with name := t, data := dat, attrs := evalAttrs tv, isInt := false } := by
+  unfold evalInto at h
+  cases htv : e.firstVar.bind (boundVar env) with
+  | none => rw [htv] at h; cases h
+  | some tv =>
+    rw [htv] at h
+    simp only at h
+    cases hd : e.evalIn env tv.data with
+    | none => rw [hd] at h; cases h
+    | some dat =>
+      rw [hd] at h
+      simp only [Except.ok.injEq] at h
+      subst h
+      refine ⟨rfl, rfl, fun n hne => ?_, tv, dat, rfl, hd, ?_⟩
+      · exact find?_replace_other f.vars t n _ rfl hne
+      · exact find?_replace_last f.vars t _ rfl
+
+/-- **C06 (an eval assignment creates variables equal to evaluating the expression on the file's arrays).** For a file
+with distinct variable names and an expression over variables of one shape `sh` (none of them called `np`, `self` or
+`outf`), `f.eval('t = expr', inplace=True)` succeeds only with a file whose variable `t` has shape `sh` and holds, at every
+index, the cell-by-cell value of the expression on the file's variables. -/
+theorem eval_creates (f g : File) (hn : NamesNodup f) (t : String) (e : Expr) (sh : List Nat)
+    (hv : ∀ n ∈ e.vars, n ∉ evalReserved ∧ ∀ v, f.var? n = some v → hasShape sh v.data = true)
+    (h : evalInto (evalEnv f) f t e = .ok g) :
+    ∃ nv, g.var? t = some nv ∧ hasShape sh nv.data = true ∧
+      ∀ idx, InShape idx sh → some (Arr.get nv.data idx) = (cellSpec f idx e).map some := by
+  obtain ⟨_, _, _, tv, dat, htv, hd, hg⟩ := evalInto_spec _ f g t e h
+  rw [evalns_eq_eval f tv.data e hn (fun n hm => (hv n hm).1)] at hd
+  -- the variable that lends its shape is a variable of the file named in the expression
+  have hshape : hasShape sh tv.data = true := by
+    cases hf : e.firstVar with
+    | none => rw [hf] at htv; cases htv
+    | some m =>
+      rw [hf] at htv
+      simp only [Option.bind_some, boundVar] at htv
+      cases hgm : (evalEnv f).get m with
+      | none => rw [hgm] at htv; cases htv
+      | some b =>
+        rw [hgm] at htv
+        cases b with
+        | other w => cases htv
+        | fileVar w =>
+          simp only [Option.some.injEq] at htv
+          subst htv
+          exact (hv m (firstVar_mem_vars e m hf)).2 w (eval_sound f hn m w hgm)
+  obtain ⟨hs, hc⟩ := eval_pointwise f sh tv.data hshape e (fun n hm => (hv n hm).2) dat hd
+  exact ⟨_, hg, hs, hc⟩
+
+/-- the same for `pncexpr`, whatever helper functions and physical constants share names with the file's variables -/
+theorem pncexpr_creates (f g : File) (helpers consts : List String) (hn : NamesNodup f) (t : String) (e : Expr)
+    (sh : List Nat)
+    (hv : ∀ n ∈ e.vars, n ∉ pncexprReserved ∧ ∀ v, f.var? n = some v → hasShape sh v.data = true)
+    (h : evalInto (pncexprEnv f helpers consts) f t e = .ok g) :
+    ∃ nv, g.var? t = some nv ∧ hasShape sh nv.data = true ∧
+      ∀ idx, InShape idx sh → some (Arr.get nv.data idx) = (cellSpec f idx e).map some := by
+  obtain ⟨_, _, _, tv, dat, htv, hd, hg⟩ := evalInto_spec _ f g t e h
+  rw [pncexpr_eq_eval f helpers consts tv.data e hn (fun n hm => (hv n hm).1)] at hd
+  have hshape : hasShape sh tv.data = true := by
+    cases hf : e.firstVar with
+    | none => rw [hf] at htv; cases htv
+    | some m =>
+      rw [hf] at htv
+      simp only [Option.bind_some, boundVar] at htv
+      cases hgm : (pncexprEnv f helpers consts).get m with
+      | none => rw [hgm] at htv; cases htv
+      | some b =>
+        rw [hgm] at htv
+        cases b with
+        | other w => cases htv
+        | fileVar w =>
+          simp only [Option.some.injEq] at htv
+          subst htv
+          exact (hv m (firstVar_mem_vars e m hf)).2 w (pncexpr_sound f helpers consts hn m w hgm)
+  obtain ⟨hs, hc⟩ := eval_pointwise f sh tv.data hshape e (fun n hm => (hv n hm).2) dat hd
+  exact ⟨_, hg, hs, hc⟩
+
+/-- non-vacuity: `pncexpr('N = V * g', f)` on a file that has a variable `g`, with scipy's `g` in the namespace -/
+example :
+    let f : File := ⟨[⟨"x", 2, false⟩], [⟨"g", ["x"], .node [.leaf (some 1), .leaf (some 2)], [], false, false⟩,
+      ⟨"V", ["x"], .node [.leaf (some 10), .leaf (some 20)], [], false, false⟩], []⟩
+    (match evalInto (pncexprEnv f [] ["g"]) f "N" (.bin .mul (.var "V") (.var "g")) with
+      | .ok r => (r.var? "N").map (fun v => (Arr.get v.data [0], Arr.get v.data [1]))
+      | .error _ => none) = some (some (some 10), some (some 40)) := by
   decide +kernel
 
 end Props.C06
